@@ -971,6 +971,73 @@ func checkC13(c *Check) {
 			c.Hold("R6", "tlsaFut:single-writer", pc.FI.Decl.Pos(), bad == "", "a future is installed for the whole delivery by "+bad+": a future is single-assignment, so every connection after the first would be judged by the first MX's TLSA result")
 		}
 	}
+	c13Surroundings(c)
+}
+
+// R7, R5c: what DANE relies on outside verifyDANE / CheckConn.
+//
+// R7 – "usable records exist and none matches ⇒ refused" is decided when a connection is opened. A connection opened
+// under the TLS-Required override was opened without the policy list – DANE never judged it; if it could come back
+// from the pool, the next ordinary message to that domain would be sent over it without any check. C05.R3 / R4.
+//
+// R5c – the "secure" bit the discovery trusts is the AD flag of the very answer it read: in the resolver's lookups an
+// AuthenticatedData flag read inside a loop over the answers of a response is that response's flag (a second lookup
+// – the AAAA fallback for IPv6-only hosts – brings its own response; the first one's flag says nothing about it).
+func c13Surroundings(c *Check) {
+	p := c.P
+	c.Rule("R7", "a connection opened without the policy list (TLS-Required override) is never pooled, and the list is skipped only under the override (C05.R3, C05.R4)", 2)
+	sub := newCheck("C05", c.P, c.Tier)
+	c05Override(sub)
+	for _, o := range sub.obs {
+		if o.Rule == "R3" || o.Rule == "R4" {
+			c.Hold("R7", o.Rule+":"+o.Key, o.posRaw, o.OK, o.Msg)
+		}
+	}
+	for f := range sub.funcs {
+		c.SawFunc(f)
+	}
+	c.Rule("R5c", "extended resolver: an AuthenticatedData flag read inside a loop over the answers of a response belongs to that same response", 2)
+	pk := p.Pkg("framework/dns")
+	if pk == nil {
+		c.Fail("R5c", "package", token.NoPos, "anchor unresolved")
+		return
+	}
+	info := pk.TypesInfo
+	n := 0
+	p.AllFuncs([]*packagesPkg{pk}, func(fi *FuncInfo) {
+		if strings.HasSuffix(p.Fset.Position(fi.Decl.Pos()).Filename, "_test.go") {
+			return
+		}
+		ast.Inspect(fi.Decl.Body, func(x ast.Node) bool {
+			rs, ok := x.(*ast.RangeStmt)
+			if !ok {
+				return true
+			}
+			sel, ok := ast.Unparen(rs.X).(*ast.SelectorExpr)
+			if !ok || sel.Sel.Name != "Answer" {
+				return true
+			}
+			respObj := objOf(info, sel.X)
+			if respObj == nil {
+				return true
+			}
+			ast.Inspect(rs.Body, func(y ast.Node) bool {
+				s2, ok := y.(*ast.SelectorExpr)
+				if !ok || s2.Sel.Name != "AuthenticatedData" {
+					return true
+				}
+				n++
+				c.SawFunc(fi.Name())
+				o := objOf(info, s2.X)
+				c.Hold("R5c", refName(fi.Obj)+":ad"+itoa(n), s2.Pos(), o == respObj, "the AD flag is read from "+exprStr(s2.X)+" while the answers being read are those of "+exprStr(sel.X)+": the 'secure' verdict for this name comes from another lookup's response (for an IPv6-only MX the empty A answer's flag decides whether DANE is attempted at all)")
+				return true
+			})
+			return true
+		})
+	})
+	if n == 0 {
+		c.Fail("R5c", "ad-reads", token.NoPos, "undecided: no AD flag is read next to the answers")
+	}
 }
 
 func fmtInts(v []int64) string {
